@@ -344,6 +344,20 @@ func init() {
 		return []Term{fv.w.SeqLen(c.args[1]), Null}
 	})
 	externEffects["io.WriteString"] = "content"
+	// ---- regexp ----
+	reg("(*regexp.Regexp).FindStringSubmatch", "FindStringSubmatch(s): deterministic in (regexp, s); the result is empty (no match) or has 1+NumSubexp elements; nothing is assumed about the groups here (pattern-specific facts are `assume` clauses of the caller)", func(fv *FuncVerifier, st *State, env *Env, c *CallCtx) []Term {
+		fv.oblige(st, env, "S", "nilderef", Not(eqT(c.recv, Null)), c.call.Lparen, "method call on non-nil *regexp.Regexp")
+		ss := fv.w.SeqSort("Seq_Int")
+		return []Term{fv.uf("re_findsubmatch", ss, "", c.recv, c.args[0])}
+	})
+	reg("(*regexp.Regexp).MatchString", "MatchString(s): deterministic predicate in (regexp, s)", func(fv *FuncVerifier, st *State, env *Env, c *CallCtx) []Term {
+		fv.oblige(st, env, "S", "nilderef", Not(eqT(c.recv, Null)), c.call.Lparen, "method call on non-nil *regexp.Regexp")
+		return []Term{fv.uf("re_match", SBool, "", c.recv, c.args[0])}
+	})
+	reg("(*regexp.Regexp).ReplaceAllString", "ReplaceAllString(s, repl): deterministic in (regexp, s, repl)", func(fv *FuncVerifier, st *State, env *Env, c *CallCtx) []Term {
+		fv.oblige(st, env, "S", "nilderef", Not(eqT(c.recv, Null)), c.call.Lparen, "method call on non-nil *regexp.Regexp")
+		return []Term{fv.uf("re_replaceall", "Seq_Int", "", c.recv, c.args[0], c.args[1])}
+	})
 	// ---- go/types observers with range facts ----
 	for _, n := range []string{"(*go/types.Tuple).Len", "(*go/types.Named).NumMethods", "(*go/types.Struct).NumFields", "(*go/types.TypeParamList).Len"} {
 		n := n
